@@ -8,6 +8,7 @@ import re
 from .. import core
 from . import _gen
 from . import _hashmap
+from . import _c03_micro
 
 M60 = (1 << 60) - 1
 M64 = (1 << 64) - 1
@@ -583,6 +584,10 @@ def run(ctx):
     ctx.notes.append("history: incrF used to return / deliver the unreduced 64-bit sum once it reached 2^60 (found by this check, "
                      "fixed in /repo 70f90aa); regression: corpus/C03/05_incrF_wrap.txt, Syncvar/Examples.v incrF_wrap_regression")
     _hashmap.run_tier(ctx, quick)      # qt_hash (src/hashmap.c): theorems + M1 tie, see _hashmap.py
+    # ---- micro-step tier (extension B) ----
+    ctx.coq_properties("Properties/Properties_C03_micro.v")
+    _c03_micro.run_micro(ctx, quick)       # Syncvar/MicroAll.v replayed on the real syncvar.c with a targeted baton, see _c03_micro.py
+    # ---- end of micro-step tier (extension B) ----
     broken = bool(mismatches) or not pr["ok"]
     if not broken and not oracle_fail:
         return
@@ -632,6 +637,8 @@ def replay(ctx, path):
     r = j.get("replay", {})
     if str(j.get("signature", "")).startswith("hashmap") and r.get("script"):
         return _hashmap.replay_script(ctx, r["script"])
+    if str(j.get("signature", "")).startswith("micro:") and r.get("probe"):     # ---- micro-step tier (extension B) ----
+        return _c03_micro.replay_probe(ctx, r["probe"])
     print(json.dumps({k: r.get(k) for k in ("config", "script_readable", "oracle")}, indent=1)[:3000])
     script = r.get("script")
     if not script:
